@@ -146,6 +146,27 @@ pub fn sweep(out: &mut dyn Write, seed: u64, o: &Opts) {
         hist.insert("short_strings_exhaustive_upto".into(), o.short_len);
         hist.insert("short_strings".into(), strs.len());
     }
+    // 1b. exhaustive strings over the class-boundary bytes (0x7F/0x80, '/'..':', '@'..'[', ...)
+    if o.short_len > 0 {
+        let bl = if o.short_len >= 5 || o.flags.contains('o') { 3 } else { 2 };
+        let strs = boundary_strings(bl);
+        for s in &strs {
+            for k in 0..2 {
+                let modes = if k == 0 { 63 } else { gen_modes(&mut rng) };
+                if o.ascii_enabled_only && modes & 1 == 0 { continue; }
+                let mask = if k == 0 { default_mask() } else { tight_single(&mut rng, s.len()) };
+                let c = Case { data: s.clone(), modes, mask, macros: true, fnc1: false, eci: None };
+                emit_case(out, o, &c, &mut hist);
+            }
+            // the same bytes inside a longer ASCII context
+            let mut d = b"AB".to_vec();
+            d.extend_from_slice(s);
+            d.extend_from_slice(b"cd");
+            let c = Case { data: d, modes: 63, mask: default_mask(), macros: true, fnc1: false, eci: None };
+            emit_case(out, o, &c, &mut hist);
+        }
+        hist.insert("boundary_strings".into(), strs.len());
+    }
     // 2. structured random inputs
     for _ in 0..o.n_random {
         let mut len = gen_len(&mut rng);
